@@ -516,10 +516,3 @@ func TestVerifC05(t *testing.T) { //nolint:gocognit,cyclop,maintidx
 	run.Set("hook_passes", sched.AllPasses())
 }
 
-func firstN(s string, n int) string {
-	if len(s) > n {
-		return s[:n]
-	}
-
-	return s
-}
